@@ -239,6 +239,9 @@ func kindSort(kind string) Sort {
 var allKinds = []string{"bool", "addr", "bv8", "bv16", "bv32", "bv64"}
 
 func (u *Unit) readCell(st *State, kind string, a *Term) *Term {
+	if u.readRec != nil {
+		u.readRec[kind] = true
+	}
 	return u.MC.Read(u.mem(st, kind, kindSort(kind)), a)
 }
 
